@@ -20,6 +20,22 @@ CHECKS = {
    technique="property-based testing of a row-multiset invariant on generated re-derivation-heavy programs, serial and parallel with schedule perturbation",
    text="Programs built so that the same tuple or lattice key is derived many times (duplicate rules, several heads into one relation, projections, inputs that are also derivable, caller duplicates) are run serially and in parallel pools with perturbation between the presence check and the insertion; the dumped rows of every relation must be exactly the caller's rows plus one row per newly derived tuple, one row per lattice key.",
    note="Trusted base as for C01; thread interleavings are sampled, not enumerated."),
+ "C06": dict(engine="progfuzz", level="exploration", design="4/C06",
+   technique="metamorphic property testing: syntactic permutations / renamings of generated programs must commute with evaluation; each variant also checked against the reference evaluator",
+   text="Every generated base program is compiled together with reordered (rules, declarations, head clauses, admissible body permutations), alpha-renamed and input-permuted variants, and, for the uninterpreted fragment, with injectively renamed constants including a change of column type; all variants must produce the base's relations modulo the renaming, and all must equal the reference result.",
+   note="Trusted base as for C01; the engine's own transforms are self-checked on every case by evaluating the transformed AST with the reference evaluator."),
+ "C07": dict(engine="progfuzz", level="exploration", design="4/C07",
+   technique="differential property testing: generated sugared programs vs. the engine's independent core expansion vs. the reference evaluator",
+   text="Generated programs that combine the sugared forms in one rule are compiled next to their documented core expansion produced by an independent desugarer; sugared program, core program and reference evaluator (which interprets the sugar natively) must agree on generated inputs.",
+   note="Trusted base as for C01; the independent desugarer is itself checked against the reference on every case."),
+ "C08": dict(engine="progfuzz", level="exploration", design="4/C08",
+   technique="differential property testing through real rustc: generated macro programs vs. their hygienic hand expansion vs. the reference evaluator, with capture-distinguishing inputs counted",
+   text="Programs whose macros are abstracted from generated rule bodies and re-invoked at adversarial call sites (shared spellings, same macro twice per rule, nesting, head macros) are compiled by real rustc (span identity matters) next to the engine's hygienic expansion; both must equal the reference on the expansion. Cases count as non-trivial only when the input distinguishes the hygienic from the capturing reading.",
+   note="Trusted base as for C01 plus the reference expander (documented reading of MACROS.MD). Recursive macros are covered by C15."),
+ "C09": dict(engine="progfuzz", level="exploration", design="4/C09",
+   technique="differential property testing of packaging variants (ascent_run, include_source at random cut points, initialised / re-declared relations, attributes, segment-codegen build) against the reference evaluator",
+   text="Each generated program is packaged in up to six ways (ascent_run!/ascent_run_par! with captured inputs, ascent_source!/include_source! cut at random positions into serial, parallel and run macros, initialised relations with a decoy earlier declaration, measure_rule_times, generate_run_timeout) and the whole batch is built a second time with the segment-codegen feature; every variant must equal the reference result.",
+   note="Trusted base as for C01. Generic struct signatures are not exercised (recorded as a limit in DESIGN.md)."),
  "C13": dict(engine="progfuzz", level="exploration", design="4/C13",
    technique="stateful (model-based) property testing: generated run()/push histories over generated programs against the model 'fresh run on everything pushed so far'",
    text="Operation sequences run() / push(tuple into any plain relation) over generated programs (serial and ascent_par!) are interpreted against the compiled program and against a model (the multiset of all pushed facts); after every run() the relations must equal the reference evaluator's result on the model, and consecutive runs must change nothing. Histories shrink as one proptest value.",
